@@ -15,6 +15,8 @@ CHECKS['C17'] = {
             'into secret mounts, outside every mount, dangling), 0-2 read-only collection mounts (manifests from the C10 generator, mounted '
             'beside or beneath the output path, whole/subdir/single file, with/without placeholder, optionally exclude_from_output or sharing '
             'one PDH), 0-2 secret mounts (beside or beneath the output path), fed to the real copier.Copy(); '
+            'round 3: one case in 100 (thorough: 400) gives one directory (output root or a sub-directory, in half of those also reached '
+            'through a symlink) exactly 1024/1025/2048/2049/2600/5000 entries - tiny files, some sub-directories, some symlinks (labels fanout:*); '
             'non-trivial = the tree contains a symlink or a collection is mounted beneath the output path; '
             'distinct = fingerprint of the full scenario listing (mounts, manifests, every entry with size/target)',
     'assumptions': [
